@@ -5,7 +5,8 @@ from props import dbcommon as D
 ID = 'C07'
 IMPORTS = ['Engine.Db', 'Engine.DbCursor', 'Engine.DbFacts', 'Engine.RunDb', 'Engine.DbProg', 'Engine.RunDbProg']
 THEOREMS = ['C07_db_refines_list_spec', 'C07_db_refines_list_spec_from_init', 'C07_sim_op', 'C07_query_cursor_answers',
-            'C07_match_binds_pattern', 'C07_ids_invariant', 'C07_nothing_raises', 'C07_compiled_updates_are_list_operations']
+            'C07_match_binds_pattern', 'C07_ids_invariant', 'C07_nothing_raises', 'C07_compiled_updates_are_list_operations',
+            'C07_compiled_refines_list_spec', 'C07_compiled_run_is_cursor_history']
 RULE = ('histories of 3-30 operations (asserta/assertz through the builtin, through a goal held in a bound variable, '
         'through a compiled clause, and through YP.assert_fact; retract taken for k answers then closed or run to '
         'exhaustion; retractall; queries through YP.query, a compiled clause and call/1; clear) over 1-3 predicates of '
